@@ -25,7 +25,7 @@ SPEC = {
                     "garbage is not asserted to be malformed", "HOME and cwd point to an empty scratch directory (.islarc)"],
 }
 
-CORPUS = ["assgn", "assgn2", "nest", "expr", "numeral", "padnum"]
+CORPUS = ["assgn", "assgn2", "nest", "expr", "numeral", "padnum", "lines", "nestlist"]
 KF_EMPTY = "C19:check:empty-input-file-IndexError"
 KF_JSON = "C19:check:json-non-tree-input-traceback"
 KF_JUNK = "C19:malformed-accepted:no-EOF-anchor"
@@ -166,7 +166,9 @@ def judge_check(ctx, box, gname, g, m, rng):
             scenario, content = "json-tree-invalid", json.dumps(["<start>", [["<nope>", [["zz", []]]]]])
     via_file = scenario in ("empty-file", "newline-only-file") or rng.random() < 0.6
     if via_file:
-        inp = ([], [box.file(".txt", content + ("\n" if scenario == "member" and rng.random() < 0.5 else ""))])
+        # the CLI drops one trailing newline of an input file (the one an editor or `isla solve > file` adds); a word that
+        # itself ends in a newline is therefore always written the way those tools write it, with the extra one
+        inp = ([], [box.file(".txt", content + ("\n" if scenario == "member" and (rng.random() < 0.5 or content.endswith("\n")) else ""))])
     else:
         if content == "" or content.startswith("-"):
             return
@@ -249,7 +251,7 @@ def judge_solve_pipeline(ctx, box, rng):
     tree_mode = rng.random() < 0.3
     gargs = grammar_args(box, g, rng)
     cargs = constraint_args(box, [text], rng)
-    extra = ["-n", str(rng.choice([1, 2, 3])), "-t", "10"] + (["--tree"] if tree_mode else []) + \
+    extra = ["-n", str(1 if gname in ("lines", "nestlist") else rng.choice([1, 2, 3])), "-t", "10"] + (["--tree"] if tree_mode else []) + \
             (["-f", str(rng.choice([1, 5]))] if rng.random() < 0.3 else []) + (["-s", str(rng.choice([1, 3]))] if rng.random() < 0.3 else [])
     argv = cmdline(rng, "solve", (extra, []), cargs, gargs)
     random.seed(rng.randrange(10 ** 6))
@@ -265,8 +267,16 @@ def judge_solve_pipeline(ctx, box, rng):
     if code != 0:
         ctx.count("solve_nonzero_exit")
         return ctx.inconclusive("solve-exit-nonzero (solver exceptions are C02's subject)")
-    lines = [l for l in out.split("\n") if l != ""]
+    multiline = any("\n" in a for alts in g.values() for a in alts)
+    if multiline and not tree_mode:
+        if "-n 1 " not in " ".join(map(str, argv)) + " ":
+            return ctx.inconclusive("several multi-line outputs on one stdout cannot be separated")
+        lines = [] if out == "" else [out[:-1]] if out.endswith("\n") else [out]      # `isla solve ... > file`: the file is stdout as printed
+    else:
+        lines = [l for l in out.split("\n") if l != ""]
     for l in lines:
+        if multiline:
+            ctx.count("multiline_solve_outputs")
         p = box.file(".json" if tree_mode else ".txt", l + "\n")
         k2, c2, o2, e2 = run_cli(ctx, cmdline(rng, "check", ([], [p]), cargs, gargs))
         if k2 == "watchdog":
